@@ -96,4 +96,29 @@ PROPS = {
         assumptions=["z3 sound", "PyVC encoding (DESIGN 2.2; str(int) and str.join as named functions)", "A-EMAIL renderer contract", "Mailbox.expunge contract (proved under C05)", "Inv(Mailbox) at command boundaries"],
         not_decided="F43 (messages addressed by MH key rather than UID across pack), POP3 QUIT bypassing the admission queue (C10)",
     ),
+    "C03": dict(
+        design_ref="DESIGN.md 7 C03",
+        technique="contract-based deductive verification (PyVC + z3): key/UID pairing as a representation invariant preserved by expunge, pack, resync and index rebuild, over a ghost model of the MH folder",
+        category="other",
+        text="The positional pairing msg_keys[i] <-> uids[i] and the two reverse index maps are a class invariant. It is proved preserved, for all mailbox states, by Mailbox.expunge (every surviving key keeps its UID; "
+             "the stale-index deletion loop carries an inductive invariant), by _pack_if_necessary (after MH.pack position i still holds the same message content, uids untouched, flags follow the message), by "
+             "check_new_msgs_and_flags (old list is a prefix) and _rebuild_index_dicts (exact inverse maps); msg_set_to_msg_seq_set and get_uid_from_msg are proved to translate through that pairing, "
+             "so UID and sequence forms address the same messages.",
+        note="Partial: clause (c) (the set a queued command is applied to is the set its arguments denote when it runs; DESIGN F04 stale resolution in management_task), rename and restart are not under contract. "
+             "MH.pack is an assumed contract (A-MH) including two arithmetic facts SMT cannot derive (stated in the evidence).",
+        assumptions=["z3 sound", "PyVC encoding (DESIGN 2.2)", "A-MH: MH.pack/iterkeys/remove contracts", "no delivery between the resync and the pack (both under the folder lock)", "writer exclusivity across awaits"],
+        not_decided="stale message-set resolution across a queued EXPUNGE (F04), rename, restart",
+    ),
+    "C14": dict(
+        design_ref="DESIGN.md 7 C14",
+        technique="contract-based deductive verification (PyVC + z3) of the SEARCH evaluator kernel against an uninterpreted satisfaction relation, plus a reference-evaluator oracle on real mailboxes (bounded)",
+        category="other",
+        text="Mailbox.search is proved, for all mailboxes and every search program, to return exactly the positions (UID SEARCH: exactly the UIDs) of the messages the program's match() accepts, in ascending order "
+             "(loop invariant over the message list). The sequence-set and UID-set keys are proved equal to the one `denotes` function shared with FETCH/STORE/COPY (after the recorded fix), NOT is proved to be the complement, "
+             "LARGER/SMALLER are proved to compare the same rendering size that RFC822.SIZE reports (cache coherence of SearchContext.msg_size/uid included).",
+        note="Partial: AND/OR use asyncio.TaskGroup and `except*` (outside the subset) and the header/body/date keys depend on the email package (A-EMAIL): they are covered only by the bounded reference oracle "
+             "(harness.e2e:SearchExact, ~200 programs). IMAPSearch.match's dynamic dispatch is an assumed contract.",
+        assumptions=["z3 sound", "PyVC encoding (DESIGN 2.2)", "IMAPSearch.match dispatches to _match_<op> (getattr) and keeps SearchContext caches coherent", "A-EMAIL renderer determinism"],
+        not_decided="(g) header/body/text/sent-date keys; AND/OR beyond the bounded oracle; do_search formatting",
+    ),
 }
